@@ -117,6 +117,17 @@ func oneCCrash(seed uint64, res *CCrashRes, h int) {
 			}
 		}(c, cr)
 	}
+	if h%3 == 1 {
+		// a client whose requests the journal rejects as too large (go-journal
+		// resets its saved flush position when it rejects a transaction)
+		wg.Add(1)
+		go func() {
+			defer wg.Done()
+			for i := 0; i < 5; i++ {
+				doOp(srv.API, &Op{K: OpSymlink, H: srv.Root, Name: fmt.Sprintf("huge%d", i), Target: longName(520*BlockSize+1, 'H')})
+			}
+		}()
+	}
 	wg.Wait()
 	trace := d.StopRecording()
 	srv.WaitIdle()
